@@ -221,7 +221,7 @@ def sample2D(
     )
 
     # Set in outside_values
-    if outside_value:
+    if outside_value is not None:
         result = np.where(outside, outside_value, result)
 
     return result
